@@ -5,7 +5,7 @@ From GD Require Import Base.Prelude Model.Strings Model.Buffer Model.Unreal2Str 
 From GD Require Import Model.Net Model.Valve Model.ValveShow Model.Master Model.Settings Model.Quake Model.Unreal2.
 From GD Require Import Spec.Rand Spec.ValveSpec Spec.ValveGen Spec.CaseEnc Spec.MasterSpec Spec.QuakeSpec Spec.Unreal2Spec.
 From GD Require Import Model.View Gen.CommonImpls Model.ViewInst Spec.ViewSpec.
-From GD Require Import Model.Dispatch Gen.ModulesTable Gen.GamesTable.
+From GD Require Import Model.Dispatch Gen.ModulesTable Gen.GamesTable Model.IdCheck.
 
 Definition rd_u8 : R N := read_uint true 1.
 Definition rd_u16 : R N := read_uint true 2.
@@ -418,6 +418,19 @@ Definition case_spec_valve_for : R bytes :=
   let '(st, o) := fst (gen_valve_for e seed) in
   ret (intercalate (str ",") (map show_hex (valve_script st o g))).
 
+(* family 30: the game-id naming checker on a list of (id, name) pairs; the
+   case carries the number_to_words answers it needs *)
+Definition case_idcheck : R bytes :=
+  let* nt := rd_u8 in
+  let* tbl := rd_list (N.to_nat nt) (let* k := rd_bytes16 in let* v := rd_bytes16 in ret (k, v)) in
+  let* ng := rd_u8 in
+  let* games := rd_list (N.to_nat ng) (let* i := rd_bytes16 in let* n := rd_bytes16 in ret (i, n)) in
+  let n2w := fun d => match find (fun kv => bytes_eqb (fst kv) d) tbl with Some kv => Some (snd kv) | None => None end in
+  ret (match test_game_name_rules n2w games with
+       | Panic 99 => str "ORACLE-MISS"
+       | o => show_outcome (fun fs => show_list show_fail fs) o
+       end).
+
 Definition run_case_R : R bytes :=
   let* fam := rd_u8 in
   if fam =? 1 then case_bufops
@@ -434,6 +447,7 @@ Definition run_case_R : R bytes :=
   else if fam =? 18 then case_settings
   else if fam =? 20 then case_quake
   else if fam =? 22 then case_unreal2
+  else if fam =? 30 then case_idcheck
   else if fam =? 110 then case_spec_valve
   else if fam =? 114 then case_spec_valve_for
   else if fam =? 115 then case_spec_view
